@@ -1,0 +1,25 @@
+//go:build verif
+// +build verif
+
+package rpc
+
+import "time"
+
+// VerifSetTransportTick sets the housekeeping tick of a Transport before its first use.
+func VerifSetTransportTick(t *Transport, d time.Duration) {
+	t.ticker = d
+}
+
+// VerifUpgradeMarshal encodes the upgrade flags into their one-byte wire form.
+func VerifUpgradeMarshal(noRequest, noResponse, heartbeat, stream byte) byte {
+	u := &upgrade{NoRequest: noRequest, NoResponse: noResponse, Heartbeat: heartbeat, Stream: stream}
+	b, _ := u.Marshal(nil)
+	return b[0]
+}
+
+// VerifUpgradeUnmarshal decodes the one-byte wire form of the upgrade flags.
+func VerifUpgradeUnmarshal(b byte) (noRequest, noResponse, heartbeat, stream byte) {
+	u := &upgrade{}
+	u.Unmarshal([]byte{b})
+	return u.NoRequest, u.NoResponse, u.Heartbeat, u.Stream
+}
